@@ -6,4 +6,6 @@ toolchain go1.23.5
 
 require github.com/spf13/afero v0.0.0
 
+require golang.org/x/text v0.23.0 // indirect
+
 replace github.com/spf13/afero => /repo
